@@ -249,9 +249,13 @@ impl RealState {
             }
             ["dm", "fast"] => (crate::c08::real_dm(&self.tree, false).0, Some(format!("dm\tfast\t{UNIT}"))),
             ["dm", "rec"] => (crate::c08::real_dm(&self.tree, true).0, Some("dm\trec".into())),
-            ["up.run", taxa, cells] => {
+            ["up.run", taxa, cells] | ["up.run", taxa, cells, _] => {
+                // optional 4th field: the factor the integers are multiplied by before the crate sees them (replay of the
+                // decimal stream: `div10` = divided by ten, the value the decimal text parses to)
+                let div10 = f.get(3) == Some(&"div10");
+                let factor: f64 = f.get(3).and_then(|x| x.parse().ok()).unwrap_or(1.0);
                 let names: Vec<String> = if *taxa == "_" { vec![] } else { taxa.split(',').filter_map(unhex).collect() };
-                let vals: Vec<f64> = if *cells == "_" { vec![] } else { cells.split(' ').filter_map(|x| x.parse::<f64>().ok()).collect() };
+                let vals: Vec<f64> = if *cells == "_" { vec![] } else { cells.split(' ').filter_map(|x| x.parse::<f64>().ok()).map(|v| if div10 { v / 10.0 } else { v * factor }).collect() };
                 let m = phylotree::distance::DistanceMatrix::new(names, &vals);
                 match m.upgma() {
                     Ok(t) => {
